@@ -280,7 +280,7 @@ def case(ctx, rng, idx, state):
 if __name__ == "__main__":
     harness.main(
         PROP, "exploration", case, setup_fn=setup,
-        tiers=dict(quick=dict(cases=120, shards=8, time=150), thorough=dict(cases=4000, shards=16, time=1100)),
+        tiers=dict(quick=dict(cases=120, shards=8, time=900), thorough=dict(cases=4000, shards=16, time=3000)),
         rule="lattices from the Bravais catalogue (randomly rotated) or random (cond<=20), a quarter of them in non-reduced (sheared, shear<=4) or Gaussian-random settings, meshes 1..5 per direction incl. anisotropic, "
              "randomly permuted and G-shifted mesh lists, centres random/outside/co-centred/high-symmetry/zero, WS tolerances 1e-7..1e-2 and the "
              "negative legacy mode, scalar/vector/rank-2 Hermitian data; non-trivial = at least one replica with Ndegen>1 or centres outside the home cell",
